@@ -1215,7 +1215,11 @@ pub fn big_program(p: &mut Prng) -> String {
     let sig = params.iter().map(|n| format!("{n}: {ty}")).collect::<Vec<_>>().join(", ");
     let pick = |p: &mut Prng| params[p.usize_below(params.len())].clone();
     // two size classes: ~10^5 gates, and several 10^5 gates (beyond typical table-size thresholds)
-    let heavy = if p.chance(1, 2) { p.range(10, 16) } else { p.range(4, 9) };
+    let heavy = match p.below(3) {
+        0 => p.range(10, 16),
+        1 => p.range(4, 9),
+        _ => p.range(1, 3),
+    };
     let mut terms = vec![];
     for _ in 0..heavy {
         let op = *p.pick(&["*", "/", "%", "/"]);
